@@ -66,8 +66,12 @@ func genStruct(rt *rapid.T, st *StructT, o GenOpts, depth int) *StructV {
 			continue
 		}
 		if f.HasDef && rapid.IntRange(0, 2).Draw(rt, "usedefault") == 0 {
-			v.F[f.ID] = f.Default
-			continue
+			// the declared default as the object holds it; a literal that leaves out
+			// required struct fields is not a value a reader accepts: draw another
+			if d := WireForm(f.Type, f.Default, 0); Readable(f.Type, d) {
+				v.F[f.ID] = d
+				continue
+			}
 		}
 		if f.Type.Kind == Struct && depth <= 0 {
 			if optional {
